@@ -2406,6 +2406,11 @@ class Interp:
             return zand(*parts) if is_and else zor(*parts)
         if isinstance(node, ast.UnaryOp) and isinstance(node.op, ast.Not):
             return znot(self.tr(node.operand, env, -pol))
+        if isinstance(node, ast.IfExp):
+            # `A if c else B` with a CONCRETE condition: the chosen branch is translated as a clause (quantifiers allowed)
+            t_ = self.eval(node.test, env)
+            if isinstance(t_, bool):
+                return self.tr(node.body if t_ else node.orelse, env, pol)
         if isinstance(node, ast.Call) and isinstance(node.func, ast.Name):
             fn = node.func.id
             if fn == 'implies' and len(node.args) == 2:
